@@ -76,6 +76,13 @@ def decoy(content):
     return bytes(content)[::-1] + b"\xEE"
 
 
+def _undecodable(src: str):
+    """U+E0FF in a source stands for the single byte FF (no valid UTF-8) in the file that is written."""
+    if "\ue0ff" in src:
+        return src.encode("utf-8").replace("\ue0ff".encode("utf-8"), b"\xff")
+    return src
+
+
 def laid_out(files: dict | None, src: str, layout: str) -> tuple[dict, str]:
     """layout 'cwd': the source is ./t.s; 'subdir': the source is proj/src/t.s (named relative to the working directory) and a decoy
     of every referenced file stands next to it - quoted paths stay relative to the working directory, as for the in-memory API."""
@@ -90,9 +97,9 @@ def laid_out(files: dict | None, src: str, layout: str) -> tuple[dict, str]:
     if layout == "subdir":
         for k, v in list(all_files.items()):
             all_files[os.path.join("proj/src", k)] = decoy(v)
-        all_files["proj/src/t.s"] = src
+        all_files["proj/src/t.s"] = _undecodable(src)
         return all_files, "proj/src/t.s"
-    all_files["t.s"] = src
+    all_files["t.s"] = _undecodable(src)
     return all_files, "t.s"
 
 
